@@ -386,8 +386,9 @@ func runC04(tier string, args []string) int {
 		}
 		cases = append(cases, c)
 	}
-	// exhaustive small space (Go legs only)
-	if run.Thorough() {
+	// exhaustive small space (Go legs only): every map with <= 3 entries over
+	// 13 names x 4 values; quick enumerates the maps with <= 2 entries
+	{
 		alpha := []string{"a", "b", "\x00"}
 		var strs []string
 		strs = append(strs, "")
@@ -407,7 +408,7 @@ func runC04(tier string, args []string) int {
 				legsFailed[leg] = true
 				run.Violation("C04:"+leg, msg, map[string]interface{}{"pairs": hexPairs(c.H), "leg": leg})
 			}
-			if len(cur) == 3 {
+			if len(cur) == 3 || (!run.Thorough() && len(cur) == 2) {
 				return
 			}
 			for i := start; i < len(strs); i++ {
@@ -421,6 +422,7 @@ func runC04(tier string, args []string) int {
 		rec(0, map[string]string{})
 		run.Eval(count)
 		run.Set("exhaustive_small_space_maps", count)
+		run.Exhaustive(false) // the random pool is sampled; only this sub-space is enumerated completely
 		run.Distinct("small-space")
 	}
 
